@@ -2,6 +2,7 @@ package main
 
 import (
 	"fmt"
+	"regexp"
 	"strings"
 
 	"hmsverif/internal/hs"
@@ -20,27 +21,20 @@ func panicFunc(site string) string {
 	return f
 }
 
+var reHex = regexp.MustCompile(`0x[0-9a-fA-F]+`)
+var reNum = regexp.MustCompile(`[0-9]+`)
+
 func normMsg(m string) string {
 	if i := strings.Index(m, "\n"); i >= 0 {
 		m = m[:i]
 	}
-	// strip volatile numbers/addresses
-	var b strings.Builder
-	for _, r := range m {
-		if r >= '0' && r <= '9' {
-			if s := b.String(); len(s) > 0 && s[len(s)-1] == '#' {
-				continue
-			}
-			b.WriteByte('#')
-			continue
-		}
-		b.WriteRune(r)
+	// strip volatile numbers and addresses
+	m = reHex.ReplaceAllString(m, "0x#")
+	m = reNum.ReplaceAllString(m, "#")
+	if len(m) > 90 {
+		m = m[:90]
 	}
-	s := b.String()
-	if len(s) > 90 {
-		s = s[:90]
-	}
-	return s
+	return m
 }
 
 // crashClass returns the failure class for an observation that is a crash/wedge, or "".
